@@ -216,6 +216,16 @@ impl core::ops::Mul<Uint128> for Uint128 {
     type Output = Uint128;
     fn mul(self, o: Uint128) -> (r: Uint128) { Uint128(self.0 * o.0) }
 }
+/// `Uint128 / Uint128` panics on a zero divisor
+impl vstd::std_specs::ops::DivSpecImpl<Uint128> for Uint128 {
+    open spec fn obeys_div_spec() -> bool { true }
+    open spec fn div_req(self, o: Uint128) -> bool { o.0 != 0 }
+    open spec fn div_spec(self, o: Uint128) -> Uint128 { Uint128(self.0 / o.0) }
+}
+impl core::ops::Div<Uint128> for Uint128 {
+    type Output = Uint128;
+    fn div(self, o: Uint128) -> (r: Uint128) { Uint128(self.0 / o.0) }
+}
 impl FromSpecImpl<u128> for Uint128 {
     open spec fn obeys_from_spec() -> bool { true }
     open spec fn from_spec(v: u128) -> Self { Uint128(v) }
@@ -272,6 +282,13 @@ impl Decimal {
     { unimplemented!() }
 }
 
+impl Default for Decimal {
+    fn default() -> (r: Decimal) ensures r.0 == 0 { Decimal(0) }
+}
+/// cosmwasm_std::Fraction (only `inv` is used)
+pub trait Fraction<T>: Sized {
+    fn inv(&self) -> Option<Self>;
+}
 // ------------------------------------------------------------------------------ Coin
 #[derive(Debug)]
 pub struct Coin { pub denom: String, pub amount: Uint128 }
